@@ -24,6 +24,7 @@ SPECS = {
     "C05": [("c05_interleavings", "c05")],
     "C08": [("c08_goaway_rules", "c08")],
     "C09": [("c09_request_end_accounting", "c09")],
+    "C10": [("c10_send_side_limit", "c10m")],
     "C11": [("c11_static_table_lookups", "c11m")],
     "C12": [("c12_message_gates", "c12")],
     "C19": [("c19_uni_stream_header", "c19m")],
